@@ -3,7 +3,7 @@ import itertools, random
 from common import *
 
 KEYS = ["a", "b", "c"]
-MEMBERS = ["x", "y", "ab", "b", "", "x\r\n\x00\xff", "10", "B"]
+MEMBERS = ["x", "y", "ab", "b", "", "x\r\n\x00\xff", "10", "B", "%d"]
 # scores as command tokens: small integers, dyadic fractions, infinities, different spellings of one number
 SCORES = ["0", "1", "2", "3", "-1", "1.5", "-0.25", "2.0", "+3", "007", "0.5", "-inf", "+inf", "inf", "-Inf", "+INF"]
 FINITE = ["0", "1", "2", "3", "-1", "1.5", "-0.25", "0.5", "4"]
